@@ -42,7 +42,8 @@ def gen_portion(rng):
         l1 = {"kind": "edge", "k": rng.randrange(n), "f": 0.3}
         l0 = {"kind": "edge", "k": l1["k"], "f": 0.3 + rng.choice([1e-7, 1e-6, 3e-6, 1e-5])}
     return {"k": "c04.portion", "pts": pts, "tol": rng.choice([1e-6, 1e-6, 1e-3]), "closed": rng.random() < 0.4,
-            "l0": l0, "l1": l1, "control": lq(rng, n), "probes": [rng.random() for _ in range(4)] + [0.0, 1.0]}
+            "l0": l0, "l1": l1, "control": lq(rng, n), "probes": [rng.random() for _ in range(4)] + [0.0, 1.0],
+            "frac": rng.choice([0.25, 0.4, 0.4, 0.6, 0.9])}
 
 
 def gen_chain(rng):
@@ -211,6 +212,28 @@ def oracle(c, r):
             for name, t in (("trim_front", tf), ("trim_back", tb)):
                 if t is not None:
                     yield ("trim-ill-posed", "%s(%r) on a curve of length %r returned a curve of length %r; an out-of-range amount yields nothing" % (name, l0, L, t["length"]))
+        # a consumer of the portions: the airfoil edge extraction keeps the piece between the two ends of a spanning ray that is
+        # shorter than a fraction of the perimeter, whichever of the two orders is the well-posed one
+        es = r.get("edge_sub")
+        if es:
+            la, lb, fr = es["la"], es["lb"], es["frac"]
+            for name, (a, b) in (("fwd", (la, lb)), ("rev", (lb, la))):
+                got = es[name]
+                if isinstance(got, dict) and got.get("panic"):
+                    yield ("edge-portion", "extract_edge_sub_curve panicked (ray ends at arc lengths %r and %r of %r)" % (a, b, L))
+                    continue
+                spans = [x for x in (span_of(a, b, L, src["closed"]), span_of(b, a, L, src["closed"]))]
+                # leave out requests within rounding of a decision (a span near zero, near the fraction, or equal ends)
+                if abs(a - b) < 10 * tol + 1e-9 * max(L, 1.0) or any(x is not None and (abs(x - fr * L) < 1e-6 * max(L, 1.0) or x < 10 * tol) for x in spans):
+                    continue
+                want = next((x for x in spans if x is not None and x < fr * L), None)
+                what2 = "extract_edge_sub_curve on a %s curve of length %r, ray ends at arc lengths %r -> %r, fraction %r" % ("closed" if src["closed"] else "open", L, a, b, fr)
+                if want is None and got is not None:
+                    yield ("edge-portion", what2 + ": no portion is shorter than the fraction, yet one of length %r is returned" % got["length"])
+                elif want is not None and got is None:
+                    yield ("edge-portion", what2 + ": the portion of length %r is shorter than the fraction, nothing returned" % want)
+                elif want is not None and abs(got["length"] - want) > 6 * tol + 1e-9 * max(L, 1.0):
+                    yield ("edge-portion", what2 + ": returned length %r, the short portion has length %r" % (got["length"], want))
         # splits
         sp = r["split"]
         if isinstance(sp, list):
